@@ -3,20 +3,41 @@
 (* kinds (RSSI forms, error annotation, comments that contain the separator characters themselves).       *)
 EXTENDS Integers, Sequences, FiniteSets, TLC
 
-CONSTANTS MaxLen, Frames, Annots
+CONSTANTS MaxLen, Frames, Annots,
+          FixCleanup,                    \* PktLog: the repaired clean-up loop (TRUE) or the one before e6ce7db
+          MaxSess, HFiles, Consoles      \* histories: number of sessions, log file names ("" = none), cc_console values
 
 INSTANCE PktLog
 
-VARIABLE seq
-vars == <<seq>>
+VARIABLES seq, hist
+vars == <<seq, hist>>
 
 Dtm(i) == "2024-02-29T23:59:59.99999" \o SubSeq("0123456789", i, i)
 Mk(i, fr, an) == [dtm |-> Dtm(i), rssi |-> an[1], frame |-> fr, err |-> an[2], comment |-> an[3]]
 
-Init == seq = <<>>
+Init == seq = <<>> /\ hist = <<>>
 Next == /\ Len(seq) < MaxLen
         /\ \E fr \in Frames, an \in Annots : seq' = Append(seq, Mk(Len(seq) + 1, fr, an))
+        /\ UNCHANGED hist
 Spec == Init /\ [][Next]_vars
+
+\* ---- histories: up to MaxSess sessions in one process, each = set_pkt_logging(file, console) + what is heard ----
+F_OK == " I --- 01:145038 --:------ 01:145038 1F09 003 FF073F"
+F_RQ == "RQ 001 18:000730 01:145038 --:------ 0008 001 00"
+Heard(k) == {<<>>,                                                                   \* nothing heard
+             <<Mk(k, F_OK, <<"045", "", "">>)>>,                                     \* one accepted packet
+             <<Mk(k, F_RQ, <<"045", "E1 bad crc", "">>), Mk(k, F_RQ, <<"---", "", "a * b < c # d">>)>>}  \* refused, accepted
+NextH == /\ Len(hist) < MaxSess
+         /\ \E f \in HFiles, c \in Consoles, ps \in Heard(Len(hist) + 1) :
+               hist' = Append(hist, [file |-> f, console |-> c, ps |-> ps])
+         /\ UNCHANGED seq
+SpecH == Init /\ [][NextH]_vars
+\* one run for both: sequences (while no history was begun) and histories (while no sequence was begun)
+SpecAll == Init /\ [][(hist = <<>> /\ Next) \/ (seq = <<>> /\ NextH)]_vars
+InvHistIdentity == L_HistIdentity(hist)
+HFilesC == {"A", "B", ""}
+NoConsole == {0}
+AnyConsole == {0, 1}
 
 InvLogIdentity == L_LogIdentity(seq)
 InvLineShape == \A i \in 1..Len(seq) : Accepted(seq[i]) =>
